@@ -1,5 +1,107 @@
 import BigtreeModel.Proto
-/-! Driver handler for property C11: one case (token list) in, one canonical line out. -/
+import BigtreeModel.BinStore
+/-! Driver handler for property C11 (also used for the BinaryNode part of C02 and C20).
+
+One line = one whole history on `n` fresh `BinaryNode`s:
+
+`cls=binary n=<k> asrt=<0|1> ops= <op> <op> …`
+
+op tokens (`<arg>` is `-` for `None`, an id `< n` for that node, an id `≥ n` for an object that is
+not a BinaryNode; `<fault>` ∈ `none|pre|post` says where the user hook raises):
+
+* `P:<v>:<arg>:<fault>`        `v.parent = arg`
+* `C:<v>:<list>:<fault>`       `v.children = list`; `<list>` = `e` (the empty list), `X` (not a
+                               list at all) or `<arg>,<arg>,…` (any length ≥ 1)
+* `T:<v>:<list>:<fault>`       the same with a *tuple* on the right-hand side (`e` = `()`); the
+                               setter copies its argument into a fresh list, so the model is the same
+* `L:<v>:<arg>:<fault>` / `R:<v>:<arg>:<fault>`   `v.left = arg` / `v.right = arg`
+* `D:<v>`                      `del v.children`        (no hook is called: no fault field)
+* `S:<v>:<k|s>`                `v.sort(key=…)` with a key that keeps / swaps two children
+
+Output: for each op `<ok|rej> <node> <node> …` with `<node>` = `<id>:<parent>:<len(children)>:<left>:<right>`
+(`-` = `None`, `!` = `IndexError`), ops joined by ` ; `; `-` for the empty history.
+`bad-op`: unparsable line, a subject that is not a node, or (with `asrt=0`) an argument that is not
+a node — Python then dies half-way with `AttributeError`, outside the model's domain. -/
 namespace Drv.C11
-def handle (_toks : List String) : String := "unimplemented"
+open Proto BinStore
+
+def parseFault : String → Option Fault
+  | "none" => some .none
+  | "pre" => some .pre
+  | "post" => some .post
+  | _ => none
+
+def parseArg (s : String) : Option (Option Nat) :=
+  if s == "-" then some none else s.toNat?.map some
+
+def parseList (s : String) : Option (Option (List (Option Nat))) :=
+  if s == "X" then some none
+  else if s == "e" then some (some [])
+  else ((s.splitOn ",").mapM parseArg).map some
+
+def parseOp (tok : String) : Option Op :=
+  match tok.splitOn ":" with
+  | ["P", v, a, f] => do pure (.parent (← v.toNat?) (← parseArg a) (← parseFault f))
+  | ["C", v, l, f] => do pure (.children (← v.toNat?) (← parseList l) (← parseFault f))
+  | ["T", v, l, f] => do
+    let l ← parseList l
+    if l.isNone then none else pure (.children (← v.toNat?) l (← parseFault f))
+  | ["L", v, a, f] => do pure (.left (← v.toNat?) (← parseArg a) (← parseFault f))
+  | ["R", v, a, f] => do pure (.right (← v.toNat?) (← parseArg a) (← parseFault f))
+  | ["D", v] => do pure (.del (← v.toNat?))
+  | ["S", v, "k"] => do pure (.sort (← v.toNat?) false)
+  | ["S", v, "s"] => do pure (.sort (← v.toNat?) true)
+  | _ => none
+
+/-- arguments of an op (for the domain check) -/
+def opArgs : Op → List (Option Nat)
+  | .parent _ np _ => [np]
+  | .children _ (some l) _ => l
+  | .children _ none _ => []
+  | .left _ x _ | .right _ x _ => [x]
+  | .del _ | .sort _ _ => []
+
+def inDomain (n : Nat) (asrt : Bool) (op : Op) : Bool :=
+  decide (op.subject < n) &&
+    (asrt || (opArgs op).all fun a => match a with | none => true | some k => decide (k < n))
+
+def showSlot : Option (Option Nat) → String
+  | none => "!"
+  | some none => "-"
+  | some (some k) => toString k
+
+def showNode (s : Store) (i : Nat) : String :=
+  ":".intercalate [toString i, showOptNat (s.parent i), toString (s.slots i).length,
+    showSlot (slotAt? s i 0), showSlot (slotAt? s i 1)]
+
+def showStore (s : Store) : String :=
+  " ".intercalate ((List.range s.n).map (showNode s))
+
+def showOutcome : Outcome → String
+  | .ok => "ok"
+  | .rej => "rej"
+
+def showTrace (t : List (Store × Outcome)) : String :=
+  if t.isEmpty then "-" else
+  " ; ".intercalate (t.map fun r => showOutcome r.2 ++ " " ++ showStore r.1)
+
+/-- parse `cls=binary n= asrt= ops= …` into (n, assertions, ops) -/
+def parseLine (toks : List String) : Option (Nat × Bool × List Op) := do
+  let cls ← kv toks "cls"
+  if cls != "binary" then none
+  let n ← (← kv toks "n").toNat?
+  let asrt ← match ← kv toks "asrt" with
+    | "1" => some true
+    | "0" => some false
+    | _ => none
+  if !toks.contains "ops=" then none
+  let opToks := (toks.dropWhile (· ≠ "ops=")).drop 1
+  let ops ← opToks.mapM parseOp
+  if ops.all (inDomain n asrt) then pure (n, asrt, ops) else none
+
+def handle (toks : List String) : String :=
+  match parseLine toks with
+  | none => "bad-op"
+  | some (n, asrt, ops) => showTrace (trace asrt (init n) ops)
+
 end Drv.C11
